@@ -85,6 +85,15 @@ func nodeMessageJobs(cr *CheckRun, reps []string) []Job {
 		for _, p := range sameTypePairs {
 			jobs = append(jobs, mk(a, p[1], p[0]))
 		}
+		// two messages of one sender on one process: the second carries the first one's (verified) signature over another payload
+		for _, ev := range fsmEvents {
+			if strings.Contains(ev, "confirm") || strings.Contains(ev, "partial_sign") || strings.Contains(ev, "decline") {
+				j := mk(a, ev, "")
+				j.Tag += " after a verified message of the same sender, re-using its signature"
+				j.Params["prime"] = "1"
+				jobs = append(jobs, j)
+			}
+		}
 		// the reinitialisation message carrying one inner message of each contribution event
 		for _, ev := range fsmEvents {
 			if strings.Contains(ev, "confirm") || strings.Contains(ev, "partial_sign") || strings.Contains(ev, "decline") {
@@ -189,8 +198,16 @@ func init() {
 					Params: map[string]string{"step": fmt.Sprint(st), "stepname": name, "kind": "2", "otherround": "1", "arb_len": "1", "tag": fmt.Sprintf("c18air%d_o", st)}})
 			}
 		}
+		if cr.Tier == "thorough" {
+			for i := range tj {
+				if tj[i].Fn == "VF_Air_Arbitrary" {
+					tj[i].Params["nullkinds"] = "3"
+				}
+			}
+		}
 		tr := cr.Pool.Run(tj)
 		cr.absorb(tj, tr)
+		cr.bounds["airgapped_payload_lists"] = "every mutant payload list as built or with a null entry appended (thorough: also with a null entry first)"
 		cr.bounds["signing_tasks"] = "1 task (thorough: 1..2), each explicit (payload 0..1 bytes) or a baked range with symbolic int bounds: any range starting outside the list, ranges of length <= 2 starting in the first 64 or last 2 positions"
 		cr.explanation = "No Go run-time panic on any feasible path of ProcessMessage for any event, any decoded request value, any sender, in each representative reachable round state (panics are found by the executor as feasible panic paths and replayed natively); a rejected message leaves every durable blob except the offset byte-identical."
 	}}
